@@ -34,6 +34,23 @@ for _k in ("maplist", "setlist"):
     TAGMAP[_k].update({"OUTCOME": ["C10"], "TORN": ["C18"], "CLEARED": ["C12"]})
 
 
+# A call that ends in a panic, abort or time-out (tag OUTCOME, always a C10 matter) also fails to deliver what the
+# property that specifies that call promises: per kind of collection, call -> properties
+_KEYQ = {"lt": ["C01"], "le": ["C01"], "by": ["C01"], "get": ["C06"], "export": ["C07"], "exportn": ["C07", "C19"],
+         "ins": ["C01", "C06"], "bulk": ["C01", "C06"], "clear": ["C01", "C06", "C12"], "empty": ["C01"]}
+_MAPQ = {"get": ["C04"], "ins": ["C04"], "bulk": ["C04"], "del": ["C04"], "clear": ["C04", "C12"], "empty": ["C04"],
+         "fil": ["C08"], "filby": ["C08"], "read": ["C08"], "write": ["C08"], "delh": ["C08"]}
+_SETQ = dict(_MAPQ, get=["C05"], ins=["C05"], bulk=["C05"], clear=["C05", "C12"], empty=["C05"], after=["C09"], before=["C09"])
+_SETQ["del"] = ["C05"]
+OUTCOME_OPS = {
+    "keytree": _KEYQ,
+    "keylist": {k: ["C13"] + (["C07"] if k.startswith("export") else []) for k in _KEYQ},
+    "maptree": _MAPQ, "settree": _SETQ,
+    "maplist": {k: ["C13"] for k in _SETQ}, "setlist": {k: ["C13"] for k in _SETQ},
+    "seg": {"ins": ["C03"], "bulk": ["C03"], "query": ["C03"], "clear": ["C12"], "new": ["C14"], "matrix": ["C15"], "point": ["C14"]},
+}
+
+
 def kind_of(coll):
     return coll.split("-")[0]
 
@@ -158,6 +175,12 @@ class Ctx:
             seg = x["seg"]
             first_viol_in_segment.setdefault(seg, x["l"])
             ids = set(tagmap.get(x["tag"], []))
+            if x["tag"] == "OUTCOME":
+                try:
+                    evd = json.loads(lines[x["l"] - 1])
+                    ids |= set(OUTCOME_OPS.get(kind_of(coll), {}).get(evd.get("op", evd.get("ev")), []))
+                except ValueError:
+                    pass
             if x["tag"] in ("TORN", "TORNWF", "TORNPOOL") and x["tag"] in plain_fault:
                 ids.discard("C18")
             # context: after an injected panic a later defect of the same segment is a C18 matter,
@@ -478,7 +501,7 @@ def one_per_kind(colls):
     return out
 
 
-def ord_scale_jobs(ctx, colls, deep=0, faults=0, flags=()):
+def ord_scale_jobs(ctx, colls, deep=0, faults=0, flags=(), sweeps=True):
     """fill to a threshold (trees: until the arena is exactly full), clear, refill past the old size, delete a third;
     lists take the whole plan in one job (no snapshots, cheap), trees one job per pair"""
     q = ctx.quick()
@@ -488,21 +511,28 @@ def ord_scale_jobs(ctx, colls, deep=0, faults=0, flags=()):
         if kind_of(coll) in ("maplist", "setlist"):
             futs.append(ctx.submit(f"scale-{coll}", coll, "scale", {"plan": ",".join(pairs + ["300:400"]), "seed": ctx.seed, "faults": faults}, flags=flags))
         else:
-            for i, pr in enumerate(pairs):
+            # (fault runs log a snapshot and a round of look-ups per injected panic: the small pairs only)
+            for i, pr in enumerate(pairs if not faults else pairs[:1] if q else ["15:26", "7:20", "23:30"]):
                 futs.append(ctx.submit(f"scale-{coll}-{pr.replace(':', '_')}", coll, "scale",
                                        {"plan": pr, "seed": ctx.seed + i, "faults": faults}, flags=flags))
+        # clear sweep: every population 1..N cleared and refilled past the old arena size (bulk calls)
+        for a, b in (([(1, 45), (46, 90)] if q else [(1, 50), (51, 100), (101, 150), (151, 200), (201, 260)]) if sweeps else []):
+            futs.append(ctx.submit(f"sweep-{coll}-{a}", coll, "scale", {"plan": "", "sweep_lo": a, "sweep_hi": b, "seed": ctx.seed}, flags=flags))
         if deep:
             futs.append(ctx.submit(f"deep-{coll}", coll, "scale", {"plan": "", "deep": deep, "seed": ctx.seed}, flags=flags, timeout=600))
     return futs
 
 
-def key_scale_jobs(ctx, colls, rounds="ABC", deep=0, flags=()):
+def key_scale_jobs(ctx, colls, rounds="ABC", deep=0, flags=(), sweeps=True):
     futs = []
     for coll in colls:
         for r in rounds:
             if r == "D" and not deep:
                 continue
             futs.append(ctx.submit(f"scale-{coll}-{r}", coll, "scale", {"rounds": r, "deep": deep, "seed": ctx.seed}, flags=flags, timeout=600))
+        # clear sweep (round S; `deep` is the first population of a block of 45)
+        for a in (((1, 46) if ctx.quick() else (1, 46, 91, 136, 181)) if sweeps else ()):
+            futs.append(ctx.submit(f"sweep-{coll}-{a}", coll, "scale", {"rounds": "S", "deep": a, "seed": ctx.seed}, flags=flags))
     return futs
 
 
@@ -742,11 +772,17 @@ def plan_faults(ctx):
                       flags=("control",), tag="-control")
     ctl += random_jobs(ctx, ords, 1 if q else 2, {"keys": 10, "steps": 2000 if q else 5000, "seglen": 90, "inject": 0}, flags=("control",), tag="-control")
     ctl += seg_random_jobs(ctx, 1 if q else 2, 600 if q else 3000, inject=0, flags=("control",), tag="-control")
+    ctl += seg_dense_jobs(ctx, inject=0, flags=("control",), tag="-control")
     ctx.collect(ctl)
     futs += random_jobs(ctx, ["keytree", "keylist"], 1 if q else 4, {"keys": 8, "tspan": 5, "steps": 2500 if q else 10000, "seglen": 70, "inject": 1},
                         flags=("fault",), tag="-inject")
     futs += random_jobs(ctx, ords, 1 if q else 3, {"keys": 10, "steps": 2000 if q else 8000, "seglen": 90, "inject": 1}, flags=("fault",), tag="-inject")
     futs += seg_random_jobs(ctx, 1 if q else 4, 600 if q else 5000, inject=1, flags=("fault",), tag="-inject")
+    futs += seg_dense_jobs(ctx, inject=1, flags=("fault",), tag="-inject")
+    # larger collections: every callback index of the insertions made at the sizes where buffers are exactly full
+    # (ord scale driver), and of calls that have to purge expired entries from a dozen (key scale driver, round F)
+    futs += ord_scale_jobs(ctx, ords, faults=1, flags=("fault",), sweeps=False)
+    futs += key_scale_jobs(ctx, ["keytree", "keylist"], "F", flags=("fault",), sweeps=False)
     ctx.collect(futs)
     return ctx.finish("fault enumeration validated by TLC: for every covered state, every call of the alphabet and every callback "
                       "index j the call makes, the j-th user callback (Ord::cmp, comparator closure, key accessor, expiration "
@@ -772,6 +808,17 @@ def seg_random_jobs(ctx, nseeds, steps, inject=0, flags=(), tag=""):
             futs.append(ctx.submit(f"random{tag}-{coll}-d{di}-{sd}", coll, "random",
                                    {"lo": lo, "hi": hi, "seed": ctx.seed * 1000 + sd, "steps": steps, "seglen": 60, "inject": inject}, flags=flags))
     return futs
+
+
+DENSE_DOMAINS = [("seg-i32", -10240, 15360), ("seg-i32", 0, 31), ("seg-i64", -4611686018427387904, 4611686018427387902)]
+
+
+def seg_dense_jobs(ctx, inject=0, flags=(), tag=""):
+    """long bucket lists (up to 70 copies, capacity coincidences, e == t), a root list of whole-domain values,
+    fault enumeration inside a long list, a bulk run of 2 500 values in one list"""
+    doms = DENSE_DOMAINS[:2] if ctx.quick() else DENSE_DOMAINS
+    return [ctx.submit(f"dense{tag}-{coll}-d{di}", coll, "dense", {"lo": lo, "hi": hi, "seed": ctx.seed + di, "inject": inject, "bulk": 2500}, flags=flags)
+            for di, (coll, lo, hi) in enumerate(doms)]
 
 
 def seg_matrix_jobs(ctx, shards):
@@ -824,7 +871,8 @@ def seg_models(ctx, dynamic=True, heap=False, layout=False, faults=False):
         ctx.model("mclayout", "MCLayout", {"MaxLen": 300 if q else 1200, "BigExps": "{9, 10, 12, 16, 20, 24, 29, 30}"}, ["Inv"], view=False, workers=1)
 
 
-SEG_RULE = ("model: every history of inserts / iterator creation / next / drop / clear within the constants (heap height H, number of "
+SEG_RULE = ("dense runs: one bucket list grown to 70 copies with e == t coincidences at the lengths where its Vec is exactly full, a root list of "
+            "17-19 whole-domain values in front of lists holding expired copies, a bulk run of 2 500 values in one list; model: every history of inserts / iterator creation / next / drop / clear within the constants (heap height H, number of "
             "values, times); conformance on the real 32-bucket tree: seeded random histories over nine domains (17 points to 2^63-1 "
             "points, negative and unsigned) with bucket-edge coordinates, e == t, partial consumption and clears, validated by TLC "
             "against SegRef with buckets from SegLayout and places from SegHeap")
@@ -833,7 +881,7 @@ SEG_RULE = ("model: every history of inserts / iterator creation / next / drop /
 def plan_c03(ctx):
     q = ctx.quick()
     seg_models(ctx)
-    futs = seg_random_jobs(ctx, 1 if q else 6, 1500 if q else 8000) + seg_matrix_jobs(ctx, 2 if q else 4)
+    futs = seg_random_jobs(ctx, 1 if q else 6, 1500 if q else 8000) + seg_matrix_jobs(ctx, 2 if q else 4) + seg_dense_jobs(ctx)
     ctx.collect(futs)
     return ctx.finish(SEG_RULE + "; plus the complete 528 x 528 (insert range, query range) matrix on the domain [0,31]", ASSUME_COMMON, )
 
@@ -841,7 +889,7 @@ def plan_c03(ctx):
 def plan_c16(ctx):
     q = ctx.quick()
     seg_models(ctx)
-    ctx.collect(seg_random_jobs(ctx, 1 if q else 6, 2500 if q else 10000))
+    ctx.collect(seg_random_jobs(ctx, 1 if q else 6, 2500 if q else 10000) + seg_dense_jobs(ctx))
     return ctx.finish(SEG_RULE + "; after every completely consumed whole-domain query the stored copies (hook) must be exactly the "
                       "copies of the values with expiration >= t", ASSUME_COMMON)
 
